@@ -12,8 +12,8 @@ import (
 // different class.
 type shape struct {
 	unwind, updating, patternPredicate, varLenNamedRel, varLen, multiDelete, labelsFn, with bool
-	repeatedNodeVar, relationshipMatch, optionalAfterWith                                    bool
-	readingClauses                                                                           int
+	repeatedNodeVar, relationshipMatch, optionalAfterWith                                   bool
+	readingClauses                                                                          int
 }
 
 func shapeOf(q *cypher.RegularQuery) shape {
